@@ -61,11 +61,13 @@ func build(sigma []enum.Kind, shapes []enum.Shape, vals []int64) *ap.AP {
 
 // Run is the check.
 func Run(c *vk.Ctx) {
-	sigma := []enum.Kind{enum.Sigma6[0], enum.Sigma6[1], enum.Sigma6[2]} // a1 a2 b: functions merges a1/a2, lines splits them
+	// a1 a2 b a0: functions merges a1/a2/a0, lines splits them; a0 is function a at an
+	// unknown line (line 0), whose entry coincides with the function-level entry of a
+	a0 := enum.Kind{Line: ap.Line{Func: "a", Sys: "a_sys", File: "f1.go", Start: 1, Line: 0}, Map: 0, Tag: "a0"}
+	sigma := []enum.Kind{enum.Sigma6[0], enum.Sigma6[1], enum.Sigma6[2], a0}
 	if c.Shard == 0 {
 		pathFamily(c)
 	}
-	var shapes []enum.Shape
 	frames := func(s enum.Shape) int {
 		n := 0
 		for _, g := range s {
@@ -73,34 +75,56 @@ func Run(c *vk.Ctx) {
 		}
 		return n
 	}
-	for _, s := range enum.Shapes(sigma, 3) {
-		if frames(s) >= 2 {
-			shapes = append(shapes, s)
+	family := func(sig []enum.Kind) []enum.Shape {
+		var out []enum.Shape
+		for _, s := range enum.Shapes(sig, 3) {
+			if frames(s) >= 2 {
+				out = append(out, s)
+			}
 		}
+		return out
 	}
-	// quick: pairs of a 2-frame stack with any 2..3-frame stack; thorough: all pairs
-	c.Note(fmt.Sprintf("stack shapes with 2..3 frames over 3 kinds, all inline groupings: %d; pairs (quick: first stack has 2 frames; thorough: all) x %d value sets; cuts: nodecount 1..n, nodefraction/edgefraction just below/above every distinct cum/edge weight; sort flat|cum; granularity functions|lines; outputs top, tree, dot, dot+call_tree; plus the trim_path/source_path family", len(shapes), len(valueSets)))
+	// Family X: all four kinds. quick: unordered pairs of 2-frame stacks; thorough: all unordered pairs.
+	// Family Y (quick only; contained in X in the thorough tier): kinds a1 a2 b, a 2-frame stack paired with any
+	// 2..3-frame stack, value sets "distinct" and "mixed signs".
+	shapesX := family(sigma)
+	shapesY := family(sigma[:3])
+	c.Note(fmt.Sprintf("stack shapes with 2..3 frames, all inline groupings: %d over 4 kinds (a1 a2 b a0), %d over 3 kinds; quick: pairs of 2-frame stacks over 4 kinds x %d value sets + (2-frame, 2..3-frame) pairs over 3 kinds x 2 value sets; thorough: all unordered pairs over 4 kinds x %d value sets; cuts: nodecount 1..n, nodefraction/edgefraction just below/above every distinct cum/edge weight; sort flat|cum; granularity functions|lines; outputs top, tree, dot, dot+call_tree; plus the trim_path/source_path family", len(shapesX), len(shapesY), len(valueSets), len(valueSets)))
 	var idx int64
-	for i := range shapes {
-		if !c.Thorough() && frames(shapes[i]) != 2 {
-			continue
-		}
-		for j := range shapes {
-			if j < i && (c.Thorough() || frames(shapes[j]) == 2) {
-				continue // unordered pairs
+	run := func(sig []enum.Kind, shapes []enum.Shape, firstTwo, secondTwo bool, vsets []int) bool {
+		for i := range shapes {
+			if firstTwo && frames(shapes[i]) != 2 {
+				continue
 			}
-			for vi, vals := range valueSets {
-				if c.Mine(idx) {
-					if c.Expired() {
-						c.Cap(fmt.Sprintf("time budget: stopped at profile index %d", idx))
-						return
-					}
-					checkProfile(c, sigma, []enum.Shape{shapes[i], shapes[j]}, vals, vi)
+			for j := range shapes {
+				if secondTwo && frames(shapes[j]) != 2 {
+					continue
 				}
-				idx++
+				if j < i && (!firstTwo || frames(shapes[j]) == 2) {
+					continue // unordered pairs
+				}
+				for _, vi := range vsets {
+					if c.Mine(idx) {
+						if c.Expired() {
+							c.Cap(fmt.Sprintf("time budget: stopped at profile index %d", idx))
+							return false
+						}
+						checkProfile(c, sig, []enum.Shape{shapes[i], shapes[j]}, valueSets[vi], vi)
+					}
+					idx++
+				}
 			}
 		}
+		return true
 	}
+	if c.Thorough() {
+		run(sigma, shapesX, false, false, []int{0, 1, 2})
+		return
+	}
+	if !run(sigma, shapesX, true, true, []int{0, 1, 2}) {
+		return
+	}
+	run(sigma[:3], shapesY, true, false, []int{0, 2})
 }
 
 func checkProfile(c *vk.Ctx, sigma []enum.Kind, shs []enum.Shape, vals []int64, vi int) {
